@@ -6,3 +6,12 @@ int leak_bad(int n) { char *p = malloc(n); if (p == NULL) return 0; if (!work(p)
 int leak_ok(int n) { char *p = malloc(n); if (p == NULL) return 0; if (!work(p)) { free(p); return 0; } free(p); return 1; }
 int deref_bad(int n) { char *p = malloc(n); p[0] = 0; free(p); return 1; }
 int deref_ok(int n) { char *p = malloc(n); if (p == NULL) return 0; p[0] = 0; free(p); return 1; }
+/* NULL-by-construction typestate (nullstate.py): the field store in set_path is fine before the dispatched decoder ran, not after */
+struct Obj { char *name; char *path; };
+typedef void (*dec_fn)(struct Obj *, const char *);
+static void set_path(struct Obj *o, const char *s) { o->path = strdup(s); }
+static void dec_path(struct Obj *o, const char *s) { free(o->path); o->path = strdup(s); }
+static void dec_name(struct Obj *o, const char *s) { free(o->name); o->name = strdup(s); }
+static const dec_fn dec_table[] = { dec_path, dec_name };
+struct Obj *ctor_ok(const char *s, int k) { struct Obj *o = calloc(1, sizeof *o); if (o == NULL) return NULL; set_path(o, s); dec_table[k](o, s); return o; }
+struct Obj *ctor_bad(const char *s, int k) { struct Obj *o = calloc(1, sizeof *o); if (o == NULL) return NULL; dec_table[k](o, s); set_path(o, s); return o; }
